@@ -136,6 +136,19 @@ func ruleLockBypass(c *eng.Ctx) {
 			locks = append(locks, call)
 		}
 	}
+	// a helper of the same package that waits on a mutex counts as that wait
+	for _, call := range eng.Calls(fn) {
+		h := eng.CalleeFunc(call)
+		if h == nil || h == fn || eng.PkgOf(h) != pkgSema || len(h.Blocks) == 0 {
+			continue
+		}
+		for _, inner := range eng.Calls(h) {
+			if _, mode, isLock := c.P.LockOp(inner); isLock && mode > 0 {
+				locks = append(locks, call)
+				break
+			}
+		}
+	}
 	if len(get) == 0 || len(locks) == 0 {
 		c.Unk(rule, "typeDependentLimit:anchors", fn.Pos(), "GetToken (%d) / freezeLock.Lock (%d) not found", len(get), len(locks))
 		return
